@@ -213,6 +213,29 @@ class CompGen:
                 self.tags.add("ref-member")
             else:
                 branches.append(o)
+        # object size bounds on the members: meeting exactly, overlapping, disjoint (unsatisfiable)
+        if rnd.random() < 0.35:
+            objs = [b for b in [resolve(defs, b) for b in branches] if isinstance(b, dict) and "oneOf" not in b]
+            if objs:
+                k = rnd.randrange(1, 4)
+                mode = self.pick(["meet-split", "meet-one", "overlap", "overlap", "disjoint", "min-only", "max-only"])
+                self.tags.add("size-bounds-" + mode)
+                x, y = rnd.choice(objs), rnd.choice(objs)
+                if mode == "meet-split":
+                    x["minProperties"] = k
+                    y["maxProperties"] = k
+                elif mode == "meet-one":
+                    x["minProperties"] = x["maxProperties"] = k
+                elif mode == "overlap":
+                    x["minProperties"] = k
+                    y["maxProperties"] = k + rnd.randrange(1, 3)
+                elif mode == "disjoint":
+                    x["minProperties"] = k + 1
+                    y["maxProperties"] = k
+                elif mode == "min-only":
+                    x["minProperties"] = k
+                else:
+                    y["maxProperties"] = k
         if any(isinstance(b, dict) and "oneOf" in b for b in branches):
             for b in [resolve(defs, b) for b in branches]:
                 if isinstance(b, dict) and "oneOf" not in b:
@@ -463,8 +486,9 @@ def model_merge(tag, jobs):
     for i, (defs, schemas) in enumerate(jobs):
         try:
             L = tocoq.clist(schemas, tocoq.cschema, "schema")
-            e = ("(let L := %s in String.append (if forallb (obj_frag false TNumber) L || forallb (obj_frag false TInteger) L then \"E\" "
-                 "else if forallb (obj_frag true TNumber) L || forallb (obj_frag true TInteger) L then \"A\" "
+            e = ("(let L := %s in String.append (if forallb (obj_frag false false TNumber) L || forallb (obj_frag false false TInteger) L then \"E\" "
+                 "else if forallb (obj_frag true false TNumber) L || forallb (obj_frag true false TInteger) L then \"A\" "
+                 "else if forallb (obj_frag true true TNumber) L || forallb (obj_frag true true TInteger) L then \"T\" "
                  "else if forallb ofrag L then \"O\" else if forallb sfrag L then \"S\" else \"-\") "
                  "(show_mres (merge_all %s 40 L)))" % (L, tocoq.cdefs(defs)))
         except (tocoq.Unsupported, KeyError, TypeError) as ex:  # noqa
@@ -585,6 +609,34 @@ def candidates(seed, comp):
                 for x in (1, "red", "zzz", None, True):
                     if x != v[i]:
                         add(v[:i] + [x] + v[i + 1:], "mutant:array-position")
+    # objects with exactly min-1, min, max, max+1 members for every minProperties / maxProperties of the operands:
+    # trimmed (optional members first) or extended (keys admitted by additionalProperties) versions of the candidates
+    bounds = set()
+    for b in comp["branches"]:
+        rb = resolve(comp["defs"], b)
+        if isinstance(rb, dict):
+            for k in ("minProperties", "maxProperties"):
+                if isinstance(rb.get(k), int):
+                    bounds.update({rb[k] - 1, rb[k], rb[k] + 1})
+    if bounds:
+        required = set()
+        for b in comp["branches"]:
+            rb = resolve(comp["defs"], b)
+            if isinstance(rb, dict):
+                required |= set(rb.get("required", []))
+        dicts = [v for v, _ in out if isinstance(v, dict)][:6] + [{}]
+        for v in dicts:
+            for t in sorted(x for x in bounds if x >= 0):
+                for fill in (1, "red", True):
+                    w = dict(v)
+                    drop = [k for k in sorted(w) if k not in required] + [k for k in sorted(w) if k in required]
+                    while len(w) > t and drop:
+                        w.pop(drop.pop(0))
+                    i = 0
+                    while len(w) < t:
+                        w["zz%d" % i] = fill
+                        i += 1
+                    add(w, "size:%d" % t)
     # every enum / const literal that occurs in the operands (merged-set semantics: a literal valid against all
     # operands must be valid against the merge result)
     def literals(x, depth=0):
@@ -966,7 +1018,8 @@ def run(ctx):
                 fr = collections.Counter(getattr(model_merge, "frag", {}).values())
                 ctx.coverage["k1_lists_inside_theorem_fragments"] = {
                     "obj_frag without arrays (exactness, C09_merge_all_exact_obj / C09_merge_all_perm_equiv apply)": fr.get("E", 0),
-                    "obj_frag with arrays (same theorems, instances without empty arrays)": fr.get("A", 0),
+                    "obj_frag with arrays, single items (same theorems, instances without empty arrays)": fr.get("A", 0),
+                    "obj_frag with arrays, tuple items + additionalItems": fr.get("T", 0),
                     "ofrag only (C09_merge_all_obj_sound_partial applies)": fr.get("O", 0),
                     "sfrag only (C09_merge_all_sound_partial applies)": fr.get("S", 0), "outside": fr.get("-", 0)}
                 ctx.coverage["k1_compared"] = n_cmp
